@@ -1004,6 +1004,17 @@ class Job:
         # transparent id updates between shallow copies of a job.
         self.statepoint._jobs.append(self)
 
+    def __copy__(self):
+        # Shallow copies refer to the same data on disk and share the state point
+        # object, through which they follow each other's state point (and id)
+        # changes. The object is created lazily, so make sure it exists before
+        # copying; otherwise the copy would create one of its own.
+        self.statepoint
+        cls = self.__class__
+        result = cls.__new__(cls)
+        result.__setstate__(self.__getstate__())
+        return result
+
     def __deepcopy__(self, memo):
         cls = self.__class__
         result = cls.__new__(cls)
